@@ -100,6 +100,12 @@ CLAIMED = {
    note="PARTIAL: conversions involving floating point/complex numbers and non-canonical number<->string text are not modelled (checked for 'no crash' only); Python/MATLAB have no evolution support (documented). Trusted: Lean kernel, evogen.py, C++ ndarray shim (default dynamic array = 0-d with one element, as xtensor). Four defects fixed (stale values across stream items; three families of non-compiling conversion code).",
    technique="Lean 4 model + kernel-checked structural theorems (partial) + differential execution of freshly generated C++ against the model",
    design="§7 C05"),
+ "C09": dict(
+   engine="rules",
+   text="Kernel-checked: (model) a validation pass that applies a rule to every node its traversal reaches rejects a type as soon as any sub-term breaks the rule - directly, inside generic arguments, optionals, union cases, vectors, arrays, map keys/values, at any depth, for every rule; (facts regenerated from the current source by go/types+go/ast) every field of every dsl node struct that can hold child nodes is walked by VisitChildren except the listed derived back-references; all passes implementing the documented rules are in Validate's pipeline; errors of imported packages and previous versions are returned (from C11). Tied to the code by injecting one violation of each documented rule (names, casing, duplicates, unknown types, generic arity, unused type parameters, ill-formed unions and tags, streams outside steps, map keys, enum/flag values and bases, array dimensions, ill-typed computed fields, reference cycles through aliases / containers / local and imported generic arguments) into valid random packages at every kind of position (field, step, stream items, alias; direct, optional, vector, array, map value, union case, generic argument, nested) and placement (main file, second file, imported package, previous version): yardl validate must exit non-zero and name the offending file.",
+   note="Trusted: Lean kernel; the fact extractor (go/types) and the allow-list of derived back-reference fields; the injection generator. The individual rule predicates are not modelled (each is exercised by the matrix). Three defects fixed (nested streams in steps, union tags in generic arguments, diagnostics without file).",
+   technique="Lean 4 proof (traversal completeness over the surface type) + kernel-checked facts regenerated from source + rule-violation injection matrix",
+   design="§7 C09"),
 }
 NOT_YET = "machinery for this property is not built yet in this round (see DESIGN.md §10 build order)"
 checks, na = [], []
